@@ -25,10 +25,17 @@ BASE = {
 }
 
 # name, overrides, exhaustive over the stated constants, timeout s
+LIVE = {"NJobs": "3", "MaxEval": "1", "Edits": "{}", "WithAbort": "FALSE", "WithMisuse": "FALSE",
+        "WithFlaky": "FALSE", "Cmps": '{"exact"}', "UsesModes": '{"all"}', "AllOrders": "FALSE", "LIVENESS": "1"}
+
 QUICK = [
     ("n2e2", {}, True, 600),
+    # C05 "every evaluation finishes": TLC liveness checking of <>finished under weak fairness of the
+    # driver's progress actions (no state constraint)
+    ("n3live", LIVE, True, 600),
 ]
 THOROUGH = [
+    ("n3live", dict(LIVE, AllOrders="TRUE", MaxEval="2", Edits='{"d", "b"}'), True, 3600),
     ("n2e3", {"MaxEval": "3"}, True, 1800),
     ("n3e1", {"NJobs": "3", "MaxEval": "1", "WithFlaky": "FALSE"}, True, 3600),
     ("n3e2", {"NJobs": "3", "MaxEval": "2", "Edits": '{"d", "b"}', "WithMisuse": "FALSE", "WithFlaky": "FALSE",
@@ -37,9 +44,13 @@ THOROUGH = [
 
 
 def _cfg_text(consts):
-    lines = ["SPECIFICATION Spec", "CONSTANTS"]
+    live = "LIVENESS" in consts
+    lines = ["SPECIFICATION FairSpec" if live else "SPECIFICATION Spec", "CONSTANTS"]
     for k, v in consts.items():
-        lines.append("  %s = %s" % (k, v))
+        if k != "LIVENESS":
+            lines.append("  %s = %s" % (k, v))
+    if live:
+        lines.append("PROPERTY EventuallyFinished")
     lines.append("INVARIANTS " + " ".join("Inv_" + p for p in INVS))
     lines.append("CHECK_DEADLOCK FALSE")
     return "\n".join(lines) + "\n"
@@ -82,8 +93,10 @@ def _run_one(name, over, exhaustive, timeout, workdir):
     if not m:
         raise ToolError("TLC model checking failed (%s): %s" % (name, txt[-1500:]))
     violated = sorted(set(re.findall(r"Invariant Inv_(\w+) is violated", txt)))
+    if "Temporal properties were violated" in txt:
+        violated = sorted(set(violated) | {"C05"})
     other_err = [l for l in re.findall(r"^Error: (.*)$", txt, re.M)
-                 if "Invariant" not in l and "behavior up to this point" not in l]
+                 if "Invariant" not in l and "behavior up to this point" not in l and "Temporal properties" not in l]
     if other_err:
         raise ToolError("TLC error in model %s: %s" % (name, other_err[0][:300]))
     depth = re.search(r"depth of the complete state graph search is (\d+)", txt)
